@@ -112,6 +112,11 @@ def run_case(ctx, kind_, idx):
                     if mode == "to_function":
                         wv.to_function()(float(wv.get()[0][0]))
                         hist.append("to_function()")
+                    if mode == "to_function" and rng.integers(0, 3) == 0:
+                        # a smoothing step first: afterwards the series is an array the LIBRARY created; the caller still
+                        # gets it from get() and may edit it in place (below) before asking for the function
+                        wv.smooth(float(rng.choice([0.0, 0.05, 1.0])))
+                        hist.append("smooth")
                     if mode == "to_function" and rng.integers(0, 2):
                         # get() hands out the Weaver's own arrays: a caller that post-processes them in place (clipping,
                         # masking) must still get a function consistent with what get() now returns
